@@ -65,7 +65,9 @@ func (g *Gen) verify() {
 	env := map[string]Val{}
 	coverVals := ""
 	for _, p := range fn.Params {
+		g.bindingParams = true
 		v := g.symFor(p.Type(), p.Name(), st)
+		g.bindingParams = false
 		if p.Name() == g.splitCallee { // case split on a parameter: this instance uses the literal
 			if strings.HasPrefix(g.splitVal, "?cover:") {
 				coverVals = strings.TrimPrefix(g.splitVal, "?cover:")
@@ -512,6 +514,9 @@ func (g *Gen) fieldOf(st *State, base, field string, env map[string]Val) Val {
 				off, ln := part("#off"), part("#len")
 				g.assume(st, fmt.Sprintf("(and (>= %s 0) (<= 0 %s) (<= %s %s) (<= 0 %s) (<= %s %s) (=> (= %s 0) (= %s 0)))", e, off, off, maxLen, ln, ln, maxLen, e, ln))
 				cur = Val{Ref: e, Off: off, Len: ln, Kind: "slice", Ty: ft}
+				if isOld {
+					cur.Heap = g.entryHs // elements are read from the entry version of the element arrays
+				}
 			}
 			if _, ok := ft.Underlying().(*types.Pointer); ok {
 				cur.Kind = "opaque"
